@@ -21,8 +21,8 @@ func init() {
 
 // lbParamReviewed: function|indexed -> why every caller is in range.
 var lbParamReviewed = map[string]string{
-	"notations/jschema/internal/scanner.(*Scanner).processingFoundLexemeClosingTag|.data[i]": "part of Next(): the scanner model interprets this read in every reachable abstract state (SX-crash-schema); i is the index of the byte just consumed and a mixed value has at least one byte before it",
-	"rules/enum.(*scanner).processingFoundLexemeClosingTag|.data[i]":                         "same code in the enum scanner (SX-crash-enum)",
+	"notations/jschema/internal/scanner.(Scanner).processingFoundLexemeClosingTag|.data[i]": "part of Next(): the scanner model interprets this read in every reachable abstract state (SX-crash-schema); i is the index of the byte just consumed and a mixed value has at least one byte before it",
+	"rules/enum.(scanner).processingFoundLexemeClosingTag|.data[i]":                         "same code in the enum scanner (SX-crash-enum)",
 }
 
 func runLBParam(c *load.Ctx, r *report.RuleResult) {
